@@ -48,24 +48,32 @@ def run(ctx, rep):
         target = {'other': 'zz'}
         two = False
         if placeholder:
-            m = '%(rk)s'
+            m = '%(rK)s'
             if ctx.rng.random() < 0.8:
-                target['rk'] = x
+                target['rK'] = x
             r = ctx.rng.random()
             if r < 0.15:
-                m = 'pre-%(rk)s'
+                m = 'pre-%(rK)s'
             elif r < 0.3:
-                m = '%(rk)s-suf'
+                m = '%(rK)s-suf'
             elif r < 0.5 and len(x) >= 2:
                 # X assembled from two placeholders, the second under a key with unusual but legal characters
-                m = '%(rk)s%(net:tenant-id/2)s'
+                m = '%(rK)s%(Net:tenant-ID/2)s'
                 two = True
-                if 'rk' in target:
-                    target['rk'] = x[:len(x) // 2]
+                if 'rK' in target:
+                    target['rK'] = x[:len(x) // 2]
                     if ctx.rng.random() < 0.9:
-                        target['net:tenant-id/2'] = x[len(x) // 2:]
+                        target['Net:tenant-ID/2'] = x[len(x) // 2:]
         else:
             m = x.replace('%', '%%')
+        if placeholder and ctx.rng.random() < 0.5:
+            # decoys under the lower-cased spellings of the keys (seeded change C04-A8: the check text lower-cased as a
+            # whole before substitution, so `%(rK)s` read target['rk'])
+            decoy = name(ctx.rng)
+            target['rk'] = decoy
+            target['net:tenant-id/2'] = ''
+            if ctx.rng.random() < 0.7:
+                roles.append(variant(ctx.rng, decoy))
         ckind = ctx.rng.random()
         if ckind < 0.8:
             creds = {'roles': roles, 'user_id': 'u'}
@@ -88,12 +96,12 @@ def run(ctx, rep):
         q = sc['queries'][0]
         tgt, creds = q['target'], q['creds']
         m = sc['_m']
-        if ('%(rk)s' in m and 'rk' not in tgt) or ('%(net:tenant-id/2)s' in m and 'net:tenant-id/2' not in tgt):
+        if ('%(rK)s' in m and 'rK' not in tgt) or ('%(Net:tenant-ID/2)s' in m and 'Net:tenant-ID/2' not in tgt):
             want = False
             rep.stat('missing_key')
         else:
             # `%%` in the check text is one per-cent sign; substituted values are taken as they are
-            xs = m.replace('%%', '\0').replace('%(rk)s', str(tgt.get('rk'))).replace('%(net:tenant-id/2)s', str(tgt.get('net:tenant-id/2'))).replace('\0', '%')
+            xs = m.replace('%%', '\0').replace('%(rK)s', str(tgt.get('rK'))).replace('%(Net:tenant-ID/2)s', str(tgt.get('Net:tenant-ID/2'))).replace('\0', '%')
             if 'roles' not in creds:
                 want = False
                 rep.stat('no_roles')
